@@ -15,6 +15,7 @@ from mc.vclock import CLOCK
 
 
 def install_clock():
+    CLOCK.virtual = True
     pexpect.expect.time = CLOCK
 
 
